@@ -24,8 +24,10 @@ def cfg(name, comment, clients, workers, msgs, pings, hb, reply, ext, dev="{}", 
 
 
 # quick
-cfg("quick", "quick: one client, pool of 2, heartbeat on, echo replies, external broadcast; repaired pool (Dev = {}): every invariant and the liveness ShutdownEndsRun",
-    "CS1", "WS2", 1, 0, "TRUE", "ReplyUni", "ExtBc", live=True)
+cfg("quick", "quick: one client, pool of 2, echo replies, external broadcast; repaired pool (Dev = {}): every invariant and the liveness ShutdownEndsRun",
+    "CS1", "WS2", 1, 0, "FALSE", "ReplyUni", "ExtBc", live=True)
+cfg("hb", "quick: heartbeat on (ping rounds, pongs, timeouts): one client that may talk in every ping round, answer pings or stay silent, close or vanish: only closed / gone / silent clients are reaped (DisconnectOnlyIfClosedOrSilent)",
+    "CS1", "WS1", 2, 0, "TRUE", "ReplyNone", "ExtNone")
 cfg("t_quick2", "thorough: two clients x 1 message, pool of 2, repaired pool: every invariant",
     "CS2", "WS2", 1, 0, "FALSE", "ReplyNone", "ExtNone")
 cfg("aswritten_n1", "quick: the pool as written with ONE worker, broadcast replies: the invocation-level properties hold as well",
@@ -49,6 +51,8 @@ cfg("dev_BroadcastSkipsSender", "sensitivity (plausible bug): a handler's broadc
     "CS1", "WS1", 1, 0, "FALSE", "ReplyBc", "ExtNone", dev='{"BroadcastSkipsSender"}', inv="DeliveryInvs", sym=False)
 cfg("dev_UnicastToAll", "sensitivity (plausible bug): a unicast is written to every stream",
     "CS2", "WS1", 1, 0, "FALSE", "ReplyUni", "ExtNone", dev='{"UnicastToAll"}', inv="DeliveryInvs", sym=False)
+cfg("dev_PingSkippedWhenActive", "sensitivity (seeded change C12-active-client-never-pinged): no heartbeat ping for a stream that delivered a message in the same iteration; a client that talks in every ping round is reaped although it answered every ping it got",
+    "CS1", "WS1", 2, 0, "TRUE", "ReplyNone", "ExtNone", dev='{"PingSkippedWhenActive"}', inv="DispatchInvs", sym=False)
 # thorough
 cfg("t_uni", "thorough: 2 clients x <= 2 messages, pool of 2, echo (unicast) replies, repaired pool",
     "CS2", "WS2", 2, 0, "FALSE", "ReplyUni", "ExtNone")
